@@ -35,6 +35,8 @@ const modPath = "github.com/elementsproject/peerswap"
 // invoicesrpc.NewInvoicesClient( / chainrpc.NewChainNotifierClient(
 var lndClientCtor = regexp.MustCompile(`\b(lnrpc|walletrpc|routerrpc|invoicesrpc|chainrpc)\.New(Lightning|WalletKit|Router|Invoices|ChainNotifier)Client\(`)
 
+const lwkRequestSig = "func (l *lwkclient) request(ctx context.Context, m jrpc2.Method, resp interface{}) error {"
+
 var (
 	repo    = flag.String("repo", "/repo", "repository root")
 	out     = flag.String("out", "", "output directory for rewritten files and overlay.json")
@@ -482,10 +484,21 @@ func main() {
 			r.collect(f)
 			errs = append(errs, r.errs...)
 			lndSeam := p.PkgPath == modPath+"/lnd" && lndClientCtor.Match(src)
-			if len(r.edits) == 0 && !lndSeam {
+			lwkSeam := p.PkgPath == modPath+"/lwk" && strings.Contains(string(src), lwkRequestSig)
+			if len(r.edits) == 0 && !lndSeam && !lwkSeam {
 				continue
 			}
 			res := r.text(0, len(src))
+			if lwkSeam {
+				// package lwk: the JSON-RPC transport of the lwk client is answered by the simulated
+				// lwk (hook variable in the injected sim/inject/lwk/simctor.go); with no hook
+				// installed the function behaves as before
+				if strings.Count(res, lwkRequestSig) != 1 {
+					errs = append(errs, "lwk seam: request function not found exactly once in "+fname)
+				}
+				res = strings.Replace(res, lwkRequestSig, lwkRequestSig+"\n\tif SimLwkTransport != nil {\n\t\tif handled, err := SimLwkTransport(ctx, m, resp); handled {\n\t\t\treturn err\n\t\t}\n\t}\n", 1)
+				census["lwk:transport-hook"]++
+			}
 			if lndSeam {
 				// package lnd: the generated gRPC client constructors are answered by the
 				// simulated LND (verifsim/lndhook); everything else stays the adapter's own code
